@@ -5,6 +5,7 @@ and the layering  unary -> range -> pratt  (parser/expr.rs).  Fails closed."""
 import re
 
 from ..common import gen_write
+from .c02_util import read_code
 from ..rustscan import ExtractError, enum_variants, read, mask, block_after, split_top, match_brace
 
 OPS = "prqlc/prqlc-parser/src/parser/pr/ops.rs"
@@ -55,7 +56,7 @@ def extract():
     binops = [v for v, _ in info["BinOp"]]
     unops = [v for v, _ in info["UnOp"]]
 
-    src = read(EXPR)
+    src = read_code(EXPR)
     m = mask(src)
     s, e = fn_block(src, m, "expr")
     body, mbody = src[s:e], m[s:e]
